@@ -10,6 +10,7 @@ interleaving (registration racing with completions, stale pre-check loads includ
 -/
 import YaclibModel.Proofs.WhenSpec
 import YaclibModel.Proofs.WhenComposeProgress
+import YaclibModel.Proofs.WhenComposeSharedSim
 import YaclibModel.Extracted.Kernels
 import YaclibModel.Model.Skeletons
 
@@ -248,6 +249,47 @@ theorem any_quiescent_complete_composed (hwf : w.wf) (hn : w.n ≠ 0) (h : WhenU
   rw [← hK.entries i]; exact (hc.2 i hi).1
 
 end Composed
+
+/-! ### inputs as real shared cores (Model/WhenComposeShared.lean, see Props/C09.lean `shared_input_interface_sound`): the
+WhenAny theorems hold in the composition of the When model with n instances of the C06 SharedFuture model (observer 0 = the
+combinator's registration, any other observers with arbitrary programs), entries synchronised -/
+
+section ComposedShared
+variable {W : WhenS.Workload} {T : WhenS.State}
+
+theorem any_shared_input_interface_sound (hwf : W.w.wf) (h : WhenS.Reachable W T) :
+    Reachable W.w T.wh ∧ ∀ i, T.wh.consumed i = (Shared.firedIds (T.sh i)).count WhenS.cb0 :=
+  ⟨(WhenS.sim hwf h).1, (WhenS.sim hwf h).2.entries⟩
+
+theorem any_set_once_shared (hwf : W.w.wf) (ha : IsAny W.w) (h : WhenS.Reachable W T) :
+    T.wh.outSet.length ≤ 1 ∧ ∀ o, o ∈ T.wh.outSet → ∃ k, k < W.w.n ∧ o = .one (W.w.inp k) :=
+  any_set_once hwf ha (WhenS.sim hwf h).1
+
+theorem any_lastfail_spec_shared (hwf : W.w.wf) (hs : W.w.strat = .anyLF) (h : WhenS.Reachable W T) :
+    ∀ o, o ∈ T.wh.outSet → ∃ k, T.wh.win = some k ∧ k < W.w.n ∧ o = .one (W.w.inp k) ∧
+      (match T.wh.rmwOrder.find? (isVal W.w) with
+       | some v => k = v
+       | none => T.wh.rmwOrder.getLast? = some k ∧ ∀ j, j < W.w.n → ok (W.w.inp j) = false) :=
+  any_lastfail_spec hwf hs (WhenS.sim hwf h).1
+
+theorem any_firstfail_spec_shared (hwf : W.w.wf) (hs : W.w.strat = .anyFF) (h : WhenS.Reachable W T) :
+    ∀ o, o ∈ T.wh.outSet →
+      (match T.wh.rmwOrder.find? (isVal W.w) with
+       | some v => T.wh.win = some v ∧ o = .one (W.w.inp v)
+       | none => (∀ j, j < W.w.n → ok (W.w.inp j) = false) ∧
+           ∃ e, T.wh.rmwOrder.head? = some e ∧ e < W.w.n ∧ o = .one (W.w.inp e) ∧
+             ∀ j, j < W.w.n → holding (T.wh.pc j) = false) :=
+  any_firstfail_spec hwf hs (WhenS.sim hwf h).1
+
+theorem any_none_spec_shared (hwf : W.w.wf) (hs : W.w.strat = .anyNone) (h : WhenS.Reachable W T) :
+    ∀ o, o ∈ T.wh.outSet → ∃ k, T.wh.rmwOrder.head? = some k ∧ k < W.w.n ∧ o = .one (W.w.inp k) :=
+  any_none_spec hwf hs (WhenS.sim hwf h).1
+
+theorem inputs_released_once_shared (hwf : W.w.wf) (h : WhenS.Reachable W T) :
+    ∀ i, T.wh.consumed i ≤ 1 ∧ T.wh.released i ≤ 1 :=
+  inputs_released_once hwf (WhenS.sim hwf h).1
+
+end ComposedShared
 
 /-! ### non-vacuity -/
 
